@@ -14,13 +14,14 @@ import (
 func init() {
 	register(&Prop{
 		ID:         "C05",
-		Decided:    "(1) the synchronous (processDirectDataSync) and asynchronous (processDirectData) paths are the same pipeline: enrichData -> applyWhereAndAnalytic -> projectDirectRow -> delivery, each stage dominating the next and fed with the previous stage's output, and the only other module calls on the way are the frozen async extras; (2) rows are received from the input buffer only by the single processing goroutine (and the expansion migration), synchronous sinks are invoked inline in slice order (no go / channel hand-off in that loop); (3) a row rejected by WHERE produces nothing: applyWhereAndAnalytic returns keep=false whenever the predicate is false, and projection/delivery are reached only under keep=true; (4) the caller's row is not written (shared with C20, ownmap). Also: the evaluation methods of the shared predicate/expression objects (condition.ExprCondition, expr.Expression) keep no per-evaluation state in the object (no store through the receiver, no receiver-owned address handed to code outside the module). Also: every receive from Stream.dataChan holds dataChanMux (a consumer cannot take a row out of the middle of a buffer migration); no delivered row and no result returned by EmitSync is the caller's own map. Also: in package functions a failing run of a program obtained from the bridge's process-wide compile cache (compiled against another row's value types) is always followed by the evaluation against the row itself (expr.Eval) before an error is returned (flow/cached-program-failure-falls-back). Also: no struct type and no package-level variable of the module holds an expr-lang vm.VM (ownmap/no-retained-vm): the run-time state of one evaluation is never kept in an object shared by concurrent evaluations or by all instances of the process. Also: no field of the per-query compiled information (the elements of Stream.compiledFieldInfo / compiledExprInfo) is both written and read on the per-row path (whomay/compiled-info-not-steered-by-rows): a counter that switches the evaluation strategy makes a row's value depend on earlier rows.",
+		Decided:    "(1) the synchronous (processDirectDataSync) and asynchronous (processDirectData) paths are the same pipeline: enrichData -> applyWhereAndAnalytic -> projectDirectRow -> delivery, each stage dominating the next and fed with the previous stage's output, and the only other module calls on the way are the frozen async extras; (2) rows are received from the input buffer only by the single processing goroutine (and the expansion migration), synchronous sinks are invoked inline in slice order (no go / channel hand-off in that loop); (3) a row rejected by WHERE produces nothing: applyWhereAndAnalytic returns keep=false whenever the predicate is false, and projection/delivery are reached only under keep=true; (4) the caller's row is not written (shared with C20, ownmap). Also: the evaluation methods of the shared predicate/expression objects (condition.ExprCondition, expr.Expression) keep no per-evaluation state in the object (no store through the receiver, no receiver-owned address handed to code outside the module). Also: every receive from Stream.dataChan holds dataChanMux (a consumer cannot take a row out of the middle of a buffer migration); no delivered row and no result returned by EmitSync is the caller's own map. Also: in package functions a failing run of a program obtained from the bridge's process-wide compile cache (compiled against another row's value types) is always followed by the evaluation against the row itself (expr.Eval) before an error is returned (flow/cached-program-failure-falls-back). Also: no struct type and no package-level variable of the module holds an expr-lang vm.VM (ownmap/no-retained-vm): the run-time state of one evaluation is never kept in an object shared by concurrent evaluations or by all instances of the process. Also: no field of the per-query compiled information (the elements of Stream.compiledFieldInfo / compiledExprInfo) is both written and read on the per-row path (whomay/compiled-info-not-steered-by-rows): a counter that switches the evaluation strategy makes a row's value depend on earlier rows. Also: every send on Stream.dataChan lies in a function that no goroutine started inside the library reaches through synchronous calls (golife/producer-sends-on-its-own-goroutine): a row is put into the input buffer by the goroutine that called Emit, before Emit returns - a row handed to a goroutine of its own is not ordered with the producer's next row.",
 		NotDecided: "projection values (aliases, nested paths, *), that the result contains exactly the selected columns, history independence of expression caches, order under the asynchronous worker pool (documented as unordered).",
 		Run:        runC05,
 	})
 }
 
 func runC05(a *A) {
+	a.Rule("golife/producer-sends-on-its-own-goroutine", 1, func() { a.ruleProducerSendsInline() })
 	a.Rule("flow/shared-pipeline", 10, func() {
 		enrich := a.Method("stream", "Stream", "enrichData")
 		where := a.Method("stream", "Stream", "applyWhereAndAnalytic")
@@ -796,4 +797,106 @@ func (a *A) ruleCompiledInfoReadOnly() int {
 			"field(s) "+strings.Join(bad, ", ")+" of stream."+it.Obj().Name()+" are written and read while rows are processed: what one row leaves there decides how a later row is evaluated, so the value projected for a row depends on the rows before it")
 	}
 	return n
+}
+
+
+// ruleProducerSendsInline: "rows emitted by one producer are processed in emission order" needs the row to be put
+// into the input buffer by the goroutine that called Emit, before Emit returns: a row handed to a goroutine of its
+// own (a background retry) races with the producer's next row. Every send on Stream.dataChan lies in a function
+// that no goroutine started inside the library reaches through synchronous calls (the public producers Emit /
+// EmitSync / ProcessSync are not followed: a user's goroutine calling them is the producer).
+func (a *A) ruleProducerSendsInline() {
+	S := a.Named("stream", "Stream")
+	dc := a.FieldOf(S, "dataChan")
+	cg := a.CG()
+	public := map[*ssa.Function]bool{}
+	for _, n := range []string{"Emit", "EmitSync", "ProcessSync"} {
+		if m := a.methodOf(S, n); m != nil {
+			public[m] = true
+		}
+	}
+	if ss := a.Named("", "Streamsql"); ss != nil {
+		for _, n := range []string{"Emit", "EmitSync"} {
+			if m := a.methodOf(ss, n); m != nil {
+				public[m] = true
+			}
+		}
+	}
+	// functions started by a go statement of the library
+	started := map[*ssa.Function]string{}
+	for _, fn := range a.ModFuncs {
+		if fn.Pkg == nil || strings.Contains(fn.Pkg.Pkg.Path(), "/examples/") {
+			continue
+		}
+		allInstrs(fn, func(in ssa.Instruction) {
+			g, ok := in.(*ssa.Go)
+			if !ok {
+				return
+			}
+			if cal := g.Call.StaticCallee(); cal != nil {
+				started[cal] = a.pos(g.Pos())
+			}
+			if mc, ok := g.Call.Value.(*ssa.MakeClosure); ok {
+				if lit, ok := mc.Fn.(*ssa.Function); ok {
+					started[lit] = a.pos(g.Pos())
+				}
+			}
+		})
+	}
+	reach := map[*ssa.Function]string{}
+	var work []*ssa.Function
+	for f, at := range started {
+		reach[f] = at
+		work = append(work, f)
+	}
+	for len(work) > 0 {
+		f := work[len(work)-1]
+		work = work[:len(work)-1]
+		n := cg.Nodes[f]
+		if n == nil {
+			continue
+		}
+		for _, e := range n.Out {
+			if _, isGo := e.Site.(*ssa.Go); isGo || e.Callee == nil || e.Callee.Func == nil {
+				continue
+			}
+			c := e.Callee.Func
+			if public[c] || !a.fnInModule(c) {
+				continue
+			}
+			if _, seen := reach[c]; !seen {
+				reach[c] = reach[f]
+				work = append(work, c)
+			}
+		}
+	}
+	n := 0
+	for _, fn := range a.ModFuncs {
+		if fn.Pkg != a.Pkg("stream") {
+			continue
+		}
+		allInstrs(fn, func(in ssa.Instruction) {
+			sends := false
+			switch x := in.(type) {
+			case *ssa.Send:
+				sends = chanField(x.Chan) == dc
+			case *ssa.Select:
+				for _, st := range x.States {
+					if st.Dir == types.SendOnly && chanField(st.Chan) == dc {
+						sends = true
+					}
+				}
+			}
+			if !sends {
+				return
+			}
+			n++
+			at, async := reach[fn]
+			a.Check(!async, "send@"+fname(fn), in.Pos(), "the row is put into the input buffer by the producer's own goroutine",
+				"this send on the input buffer can run on a goroutine the library starts itself (go statement at "+at+"): a row handed to its own goroutine is no longer ordered with the producer's next row")
+		})
+	}
+	if n == 0 {
+		a.Und("send@dataChan", token.NoPos, "no send on Stream.dataChan found in package stream")
+	}
 }
